@@ -1545,6 +1545,19 @@ M('C07', 'separable sum hands the first step to every part', PROXF,
   """            *[factory(sigma[0])
               for sigmai, factory in zip(sigma, factory_list)])""",
   'steps sigma, 2 sigma')
+MA('C08', 'Lp norm conjugate keeps the exponent', DEFF, 'LpNorm.convex_conj',
+   'return IndicatorLpUnitBall(self.domain, exponent=conj_exponent(self.exponent))',
+   'return IndicatorLpUnitBall(self.domain, exponent=self.exponent)',
+   'LpNorm[p=inf')
+MA('C08', 'nuclear norm conjugate keeps the singular-vector exponent', DEFF,
+   'NuclearNorm.convex_conj',
+   'return IndicatorNuclearNormUnitBall(self.domain, conj_exponent(self.outernorm.exponent), conj_exponent(self.pwisenorm.exponent))',
+   'return IndicatorNuclearNormUnitBall(self.domain, conj_exponent(self.outernorm.exponent), self.pwisenorm.exponent)',
+   'NuclearNorm[singular exp')
+MA('C08', 'group norm conjugate keeps the exponent', DEFF,
+   'IndicatorGroupL1UnitBall.convex_conj',
+   'conj_exp = conj_exponent(self.pointwise_norm.exponent)',
+   'conj_exp = 1', 'IndicatorGroupL1UnitBall')
 M('C15', 'element from a callable no longer owns its data (regression)', 'odl/discr/discr_space.py',
   "                sampled = np.array(sampled, copy=True)",
   "                pass", 'C15-R4c')
